@@ -54,4 +54,10 @@ CHECKS["C06"] = {
     "note": TRUSTED + "Not decided: command order relative to the next trigger (Bevy); duplicate registrations of one trigger.",
 }
 
+CHECKS["C07"] = {
+    "technique": "ownership analysis over MIR and the ADT table: type walk for holder fields, release-operation classification per holder, expected-zero deny-list of leak primitives, move/borrow/drop typestate of the prepared handle, provenance classification of every despawn call site",
+    "text": "Decides where clones of the ref-counted reactor handle can live and that each such place has a release; that the mode selects the handle kind; that registration only lends the handle and clones once per queued registration; that the despawn reaction moves handles and clears the slot it fills; that no despawn call takes its entity from a handle, a sys_command() result or a table entry.",
+    "note": TRUSTED + "Not decided: the count over histories (Arc's count given the decided clauses); when GC runs.",
+}
+
 NOT_APPLICABLE = {}
